@@ -188,7 +188,8 @@ def check_path(case, ctx):
             b = complex(path.point(1 - T))
             ctx.check(abs(a - b) <= ptol + 1e-7 * Ltot, 'path/reversed/point_T', 'reversed().point(%r)=%r but point(1-T)=%r' % (T, a, b))
     lr = float(ctx.lib('reversed.length', r.length))
-    ctx.check(abs(lr - Ltot) <= 1e-9 * Ltot + (2e-6 * Ltot if has_arc else 0), 'path/reversed/length', 'reversed().length()=%r, original %r' % (lr, Ltot))
+    # (absolute floor: the library asks quad for an absolute error of 1e-12 per segment)
+    ctx.check(abs(lr - Ltot) <= 1e-9 * Ltot + 1e-11 * n + (2e-6 * Ltot if has_arc else 0), 'path/reversed/length', 'reversed().length()=%r, original %r' % (lr, Ltot))
     # cropped ---------------------------------------------------------------------------------------
     closed = gen.path_is_closed(specs)
     T0, T1 = case['T0'], case['T1']
@@ -217,6 +218,15 @@ def check_path(case, ctx):
             k_, t_ = path.T2t(T)
             if t_ < 2e-8 or t_ > 1 - 2e-5:
                 snapped = True
+    # a crop end that falls inside an Arc segment so close to one of its ends that the cropped piece spans < 0.01 degrees
+    # re-derives an Arc from two nearly coincident points: C04's finding KF01 (a full turn instead of a sliver), not cropped()'s
+    from svgpathtools import Arc as _Arc
+    for T in (T0, T1):
+        if 0 < T < 1:
+            k_, t_ = path.T2t(T)
+            sg = path[k_]
+            if isinstance(sg, _Arc) and 1e-8 < min(t_, 1 - t_) and abs(sg.delta) * min(t_, 1 - t_) < 1e-2:
+                ctx.discard('arc piece of a path crop spans < 0.01 degrees (excluded: C04 finding KF01)')
     if snapped:
         ctx.count('path:crop_end_snapped_to_joint')
         ptol = max(ptol, 4e-5 * max(float(s.length()) for s in path))
